@@ -252,6 +252,13 @@ def run_history(trace, root_dir: str, crash_at, logfd: int, snap_dir=None):
     from ..driver import World, tagged_message
 
     state = {"n": 0, "crash_at": crash_at, "on": False, "logfd": logfd, "marks": [], "root": root_dir}
+    # the server's own temporary directories (Mailbox.copy) are leaked when the process is killed: keep them next
+    # to the case directory (outside `root_dir`, so they are not counted as effects), where they are removed
+    import tempfile
+
+    tdir = os.path.join(os.path.dirname(root_dir.rstrip("/")), "tmp-" + os.path.basename(root_dir.rstrip("/")))
+    os.makedirs(tdir, exist_ok=True)
+    tempfile.tempdir = tdir
     _install_counter(state)
     w = World(rseed=trace.get("rseed", 0), pack_limit=trace.get("pack_limit"), root_dir=root_dir)
     w.loop.effect_hook = lambda kind, fn: state["effect"](f"{kind} {getattr(fn, '__name__', fn)!r}"[:160])
@@ -889,6 +896,7 @@ def execute(trace) -> CaseResult:
             what = f"crash before effect {k} of {K} ({j} command(s) acknowledged" + (f", in-flight: {acks[j]['line'][:50]!r}" if j < nacks else "") + ")"
             c3, got = fork_run(lambda cdir=cdir: read_state(cdir, trace.get("rseed", 0)), timeout=200)
             rmtree(cdir)
+            rmtree(os.path.join(base, f"tmp-k{k}"))
             sig = (acks[j]["line"].split(" ")[0] if j < nacks else "after-last") if kind == "history" else kind
             if in_window(k):
                 sig = "pack-window:" + sig
